@@ -29,8 +29,8 @@ PROPS = ['C%02d' % i for i in range(1, 21)]
 PLAN = {
     'C01': {'quick': [('nest', 500), ('redispatch', None), ('await_pos', 192), ('errors', 120), ('recursion', None), ('fwd3', 150), ('hist_rand', 120), ('timeout', None), ('late_on', None), ('timeout_stray', None)],
             'thorough': [('nest', 12000), ('late_on', None), ('timeout_stray', None), ('redispatch', None), ('await_pos', None), ('errors', None), ('recursion', None), ('fwd3', None), ('fwd', 2000), ('hist_rand', 3000), ('timeout', None), ('timeout_rand', 2000)]},
-    'C02': {'quick': [('nest', 500), ('await_pos', None), ('fwd3', 200), ('firstuse', None), ('life', 150), ('cancel_cleanup', None), ('gather_await', 96)],
-            'thorough': [('nest', 12000), ('await_pos', None), ('fwd3', None), ('fwd', 3000), ('firstuse', None), ('life', None), ('hist_rand', 2000), ('cancel_cleanup', None)]},
+    'C02': {'quick': [('nest', 500), ('await_pos', None), ('fwd3', 200), ('firstuse', None), ('life', 150), ('cancel_cleanup', None), ('gather_await', 96), ('idle_in_handler', None)],
+            'thorough': [('nest', 12000), ('await_pos', None), ('fwd3', None), ('fwd', 3000), ('firstuse', None), ('life', None), ('hist_rand', 2000), ('cancel_cleanup', None), ('idle_in_handler', None), ('gather_await', None)]},
     'C03': {'quick': [('nest', 500), ('await_pos', 192), ('recursion', None), ('errors', 120), ('fwd3', 150), ('hist', 150), ('par_timeout', 72), ('timeout_stray', None), ('timeout_rand', 100)],
             'thorough': [('nest', 12000), ('await_pos', None), ('recursion', None), ('errors', None), ('fwd3', None), ('fwd', 2000), ('hist', None), ('hist_rand', 3000), ('timeout_rand', 2000), ('par_timeout', None), ('timeout_par_rand', 2000), ('timeout_stray', None)]},
     'C04': {'quick': [('await_pos', None), ('nest', 500), ('firstuse', None), ('fwd', 150), ('deep_timeout', None), ('await_after_stop', None), ('idle_target', None), ('gather_await', None)],
@@ -45,8 +45,8 @@ PLAN = {
             'thorough': [('fwd3', None), ('fwd', 8000), ('nest', 6000), ('errors', None), ('timeout', None), ('timeout_rand', 4000), ('par_timeout', None), ('timeout_par_rand', 3000), ('fwd_timeout', 4000)]},
     'C09': {'quick': [('nest', 500), ('fwd3', 500), ('fwd', 300), ('firstuse', None), ('errors', 100)],
             'thorough': [('nest', 12000), ('fwd3', None), ('fwd', 6000), ('firstuse', None), ('errors', None), ('await_pos', None)]},
-    'C10': {'quick': [('timeout', None), ('deep_timeout', None), ('timeout_rand', 400), ('par_timeout', None), ('timeout_par_rand', 200), ('timeout_stray', None), ('cancel_cleanup', None), ('fwd_timeout', 200)],
-            'thorough': [('timeout', None), ('deep_timeout', None), ('timeout_rand', 12000), ('par_timeout', None), ('timeout_par_rand', 6000), ('timeout_stray', None), ('cancel_cleanup', None), ('fwd_timeout', 3000)]},
+    'C10': {'quick': [('timeout', None), ('deep_timeout', None), ('timeout_rand', 400), ('par_timeout', None), ('timeout_par_rand', 200), ('timeout_stray', None), ('cancel_cleanup', None), ('fwd_timeout', 200), ('retry_handler', None)],
+            'thorough': [('timeout', None), ('deep_timeout', None), ('timeout_rand', 12000), ('par_timeout', None), ('timeout_par_rand', 6000), ('timeout_stray', None), ('cancel_cleanup', None), ('fwd_timeout', 3000), ('retry_handler', None)]},
     'C11': {'quick': [('errors', None), ('errors_par', None), ('nest', 300)],
             'thorough': [('errors', None), ('errors_par', None), ('nest', 10000), ('timeout_rand', 2000)]},
     'C13': {'quick': [('hist', None), ('hist_rand', 400), ('capacity', 24), ('hist_fwd', None)],
@@ -68,7 +68,7 @@ OWN = {p: [(p + '.', None)] for p in PROPS}
 OWN['C11'] += [('C01.missing', ('errors', 'errors_par')), ('C03.', ('errors', 'errors_par')), ('C10.child_pending', ('errors', 'errors_par'))]
 OWN['C13'] += [('C01.', ('hist', 'hist_rand', 'capacity')), ('C03.', ('hist', 'hist_rand', 'capacity'))]
 OWN['C14'] += [('C03.', ('capacity', 'retry_dispatch', 'capacity_fwd')), ('C01.missing', ('capacity', 'retry_dispatch', 'capacity_fwd'))]
-_TMO = ('timeout', 'timeout_rand', 'deep_timeout', 'par_timeout', 'timeout_par_rand', 'timeout_stray', 'cancel_cleanup', 'fwd_timeout')
+_TMO = ('timeout', 'timeout_rand', 'deep_timeout', 'par_timeout', 'timeout_par_rand', 'timeout_stray', 'cancel_cleanup', 'fwd_timeout', 'retry_handler')
 OWN['C10'] += [('C01.missing', _TMO), ('C15.hang', _TMO), ('C08.result_changed', _TMO), ('C03.', ('par_timeout', 'timeout_par_rand', 'timeout_stray'))]
 OWN['C17'] += [('C01.', ('wal',)), ('C03.', ('wal',)), ('X.wal', ('wal',))]
 _FWD = ('fwd', 'fwd3', 'fwd_deep')
